@@ -815,20 +815,22 @@ def _padding_case(c, case):
     wp, c2_ = fresh_real("wp", 0, None, lo_strict=True)
     g2, c3_ = fresh_real("g2", 0, None)
     dt, c4_ = fresh_real("dt", 0, None, lo_strict=True)
-    assume = c0 + c1_ + c2_ + c3_ + c4_ + [de.t != 0, w0.t * dt.t < 2]
+    assume = c0 + c1_ + c2_ + c3_ + c4_ + [de.t != 0, w0.t * dt.t < 2, dt.t * dt.t * Fraction(37, 64) < 4]  # last: |q|*dt < 2 for the concrete CCPR pole (|q|^2 = 37/64)
     c.symvars += 6
 
-    def mats():
+    def mats(with3=True):
         lor = dp.LorentzPole(resonance_frequency=w0, damping=g, delta_epsilon=de)
         dru = dp.DrudePole(plasma_frequency=wp, damping=g2)
         return {"air": fdtdx.Material(), "one": fdtdx.Material(permittivity=2.0, dispersion=dp.DispersionModel(poles=(lor,))),
-                "two": fdtdx.Material(permittivity=3.0, dispersion=dp.DispersionModel(poles=(dru, lor)))}, (lor, dru)
+                "two": fdtdx.Material(permittivity=3.0, dispersion=dp.DispersionModel(poles=(dru, lor))),
+                **({"three": fdtdx.Material(permittivity=4.0, dispersion=dp.DispersionModel(poles=(_CCPR3(dp),)))} if with3 else {})}, (lor, dru)
 
     for comps, ccomps in ((1, 1), (3, 3), (3, 9)):
         def fn(comps=comps, ccomps=ccomps):
-            m, (lor, dru) = mats()
+            m, (lor, dru) = mats(comps >= 3)  # the scalar tier rejects per-axis poles by design
             order = [n for n, _ in mt.compute_ordered_material_name_tuples(m)]
-            return order, mt.compute_allowed_dispersive_coefficients(m, dt, 3, comps, ccomps), dp.compute_pole_coefficients_tensor((lor,), dt), dp.compute_pole_coefficients_tensor((dru, lor), dt)
+            return (order, mt.compute_allowed_dispersive_coefficients(m, dt, 3, comps, ccomps), dp.compute_pole_coefficients_tensor((lor,), dt),
+                    dp.compute_pole_coefficients_tensor((dru, lor), dt), dp.compute_pole_coefficients_tensor((_CCPR3(dp),), dt))
 
         paths = _explore(c, fn, assume, [dp, mt])
         vals = [p for p in paths if p[1] is None]
@@ -843,16 +845,18 @@ def _padding_case(c, case):
             lor = dp.LorentzPole(resonance_frequency=v["w0"], damping=v["g"], delta_epsilon=v["de"])
             dru = dp.DrudePole(plasma_frequency=v["wp"], damping=v["g2"])
             ms = {"air": fdtdx.Material(), "one": fdtdx.Material(permittivity=2.0, dispersion=dp.DispersionModel(poles=(lor,))),
-                  "two": fdtdx.Material(permittivity=3.0, dispersion=dp.DispersionModel(poles=(dru, lor)))}
+                  "two": fdtdx.Material(permittivity=3.0, dispersion=dp.DispersionModel(poles=(dru, lor))),
+                  **({"three": fdtdx.Material(permittivity=4.0, dispersion=dp.DispersionModel(poles=(_CCPR3(dp),)))} if comps >= 3 else {})}
             names = [n for n, _ in mt.compute_ordered_material_name_tuples(ms)]
             got = mt.compute_allowed_dispersive_coefficients(ms, dtv, 3, comps, ccomps)
-            refs = dict(one=dp.compute_pole_coefficients_tensor((lor,), dtv), two=dp.compute_pole_coefficients_tensor((dru, lor), dtv))
+            refs = dict(one=dp.compute_pole_coefficients_tensor((lor,), dtv), two=dp.compute_pole_coefficients_tensor((dru, lor), dtv),
+                        three=dp.compute_pole_coefficients_tensor((_CCPR3(dp),), dtv))
             dg = {1: [0], 3: [0, 4, 8], 9: list(range(9))}[ccomps]
             bad = []
             for k in range(4):
                 sel = list(range(comps)) if k < 2 else dg
                 for mi, name in enumerate(names):
-                    npoles = dict(air=0, one=1, two=2)[name]
+                    npoles = dict(air=0, one=1, two=2, three=1)[name]
                     if np.any(got[k][mi, npoles:] != 0):
                         bad.append(f"c{k + 1}[{name}] padded slot non-zero")
                     if npoles and not np.array_equal(got[k][mi, :npoles], refs[name][k][:, sel]):
@@ -860,20 +864,26 @@ def _padding_case(c, case):
             return bool(bad), dict(params=v, dt=dtv, mismatches=bad[:6])
 
         for pi, (res, exc, pc) in enumerate(vals):
-            order, arrs, one, two = res
+            order, arrs, one, two, three = res
             diag = {1: [0], 3: [0, 4, 8], 9: list(range(9))}[ccomps]
             for k in range(4):
                 A = _terms(arrs[k])
                 sel = list(range(comps)) if k < 2 else diag
-                ref = {"one": _terms(one[k])[:, sel], "two": _terms(two[k])[:, sel]}
+                ref = {"one": _terms(one[k])[:, sel], "two": _terms(two[k])[:, sel], "three": _terms(three[k])[:, sel]}
                 for mi, name in enumerate(order):
-                    npoles = dict(air=0, one=1, two=2)[name]
+                    npoles = dict(air=0, one=1, two=2, three=1)[name]
                     pad = A[mi, npoles:]
                     c.prove(f"padding comps={comps}/{ccomps} path{pi}: c{k + 1}[{name}] padded slots are exact zeros",
                             bool(all((not isz(v)) and v == 0 for v in pad.reshape(-1))), pc, rslots, key="padding:nonzero-pad")
                     if npoles:
                         c.prove_eq(f"padding comps={comps}/{ccomps} path{pi}: c{k + 1}[{name}] real slots unchanged", A[mi, :npoles], ref[name], pc, rslots, key="padding:slot-changed")
     c.witness("twin: padding assumptions satisfiable", True, assume)
+
+
+def _CCPR3(dp):
+    """a concrete per-axis CCPR pole with non-zero real residue parts (dE/dt coupling c4 != 0, different on every axis): the
+    per-material table must pick the DIAGONAL c3/c4 entries at the per-axis tier (seeded change C35b)"""
+    return dp.CCPRPole(pole=(complex(-0.125, 0.75), complex(-0.125, 0.75), complex(-0.25, 0.5)), residue=(complex(0.5, 0.25), complex(0.375, 0.25), complex(-0.25, 0.75)))
 
 
 def run_case(c, case):
